@@ -26,14 +26,15 @@ def make_case(i, rng, tier):
     if rng.random() < 0.5:
         k.p_absent = rng.choice((0.5, 0.9, 1.0))
         k.p_fail = rng.choice((0.3, 0.6))
-    inp = common.gen_input(rng, common.target_for(i, rng), k)
+    inp = common.gen_input(rng, common.target_for(i, rng), k, huge=True)
     o = model.decode(inp["root"], inp["data"], cc=inp["cc"], enc=inp["enc"])
     if not o.ok:
         raise HarnessError("generator produced a malformed input")
     if inp["root"] == model.STREAM:
         return None
     main = common.spec("main", inp, strict=True)
-    tasks, sched = common.perturb(rng, [main], p_by=0.3)
+    sweep = common.enc_sweep_specs(rng, gen.Gen(rng, k), rng.choice((0, 0, 1, 2)))
+    tasks, sched = common.perturb(rng, [main] + sweep, p_by=0.3)
     return {"input": {"root": inp["root"], "cc": inp["cc"], "enc": inp["enc"], "label": inp["label"],
                       "later": rng.randrange(64) if rng.random() < 0.05 else None},
             "tasks": tasks, "schedule": sched}
